@@ -31,12 +31,29 @@
 (*                                                                           *)
 (* Named deviation Dev = "marshal-cache": a container remembers the bytes of *)
 (* its last marshal and forgets them when Set is called on ITSELF only.      *)
+(*                                                                           *)
+(* HOW AN OBJECT CAME TO BE is part of a history too. The value types are    *)
+(* exported Go types: besides the New* constructors a caller may write       *)
+(* `var o amf0.Object`, `&amf0.EcmaArray{}`, `new(amf0.StrictArray)`,        *)
+(* `n := amf0.Number(2); &n`, and may call UnmarshalBinary on such a zero    *)
+(* value instead of on what Discovery returns. Every node carries its        *)
+(* origin (field o); the abstract value does not depend on it:               *)
+(*   "new"   New* constructor          "zero"  declared variable, its address *)
+(*   "lit"   &T{} composite literal    "alloc" new(T)                         *)
+(*   "conv"  scalar: typed conversion of a Go value, its address              *)
+(*   "lib"   made by the library while decoding (Discovery)                   *)
+(*   "dzero" a zero value the caller declared and called UnmarshalBinary on   *)
+(* Named deviation Dev = "marker-by-constructor": the marker byte of a       *)
+(* container is a field only the constructors fill in; a container of any    *)
+(* other origin is written with marker 0.                                    *)
 EXTENDS Amf0, FiniteSets
 
 CONSTANTS
   MaxNodes,     \* objects ever created in a behaviour
   MaxSteps,     \* calls (observations not counted)
-  LoadVals      \* value trees a behaviour may start from (built or decoded before the history starts)
+  LoadVals,     \* value trees a behaviour may start from (built or decoded before the history starts)
+  COrigins,     \* how a behaviour may make a container: subset of {"new", "zero", "lit", "alloc"}
+  SOrigins      \* how a behaviour may make a number / string / boolean: subset of {"new", "conv", "zero"}
 
 VARIABLES
   heap,         \* sequence of nodes; a node's identity is its index
@@ -47,8 +64,12 @@ VARIABLES
 lvars == <<heap, lpc, out, cache, nsteps>>
 
 \* ------------------------------------------------------------------- heap
-CNode(k, p) == [t |-> k, p |-> p, s |-> None]          \* container: kind, pairs <<name, node id>>
-SNode(s)    == [t |-> "scalar", p |-> <<>>, s |-> s]   \* number, boolean, string, null, undefined
+CNode(k, p, o) == [t |-> k, p |-> p, s |-> None, o |-> o]          \* container: kind, pairs <<name, node id>>, origin
+SNode(s, o)    == [t |-> "scalar", p |-> <<>>, s |-> s, o |-> o]   \* number, boolean, string, null, undefined
+\* null and undefined are unexported types: only their constructors (and the decoder) make them
+SOriginOk(s, o) == s.t \in {"num", "bool", "str"} \/ o = "new"
+\* origins whose objects no constructor has touched
+Unconstructed == {"zero", "lit", "alloc", "dzero"}
 Ids         == 1..Len(heap)
 IsC(h, n)   == h[n].t # "scalar"
 Kids(h, n)  == {h[n].p[i][2] : i \in 1..Len(h[n].p)}
@@ -84,8 +105,8 @@ HeapKids(prs, base) ==
 HeapOf(v, base) ==
   IF v.t \in {"obj", "ecma", "strict", "strictk"}
   THEN LET kids == HeapKids(PairsOf(v), base + 1)
-       IN <<CNode(KindOf(v.t), kids.p)>> \o kids.nodes
-  ELSE <<SNode(v)>>
+       IN <<CNode(KindOf(v.t), kids.p, "new")>> \o kids.nodes
+  ELSE <<SNode(v, "new")>>
 
 NoOut   == [n |-> 0, b |-> <<>>, sz |-> 0]
 NoCache == [i \in 1..MaxNodes |-> <<>>]
@@ -101,19 +122,19 @@ CanSet(n, k) == n \in Ids /\ IsC(heap, n) /\ LKeyOk(n, k) /\ LRoom(n, k)
 \* the deviation forgets the bytes of the container Set is called on - not of the containers above it
 Forget(n)    == IF Caching THEN [cache EXCEPT ![n] = <<>>] ELSE cache
 
-NewC(kind) ==
+NewC(kind, o) ==
   /\ CanCall /\ Len(heap) < MaxNodes
-  /\ heap' = Append(heap, CNode(kind, <<>>))
+  /\ heap' = Append(heap, CNode(kind, <<>>, o))
   /\ UNCHANGED cache /\ Called
 
-SetNew(n, k, s) ==
-  /\ CanCall /\ Len(heap) < MaxNodes /\ CanSet(n, k)
-  /\ heap' = Append([heap EXCEPT ![n].p = SetOp(@, k, Len(heap) + 1)], SNode(s))
+SetNew(n, k, s, o) ==
+  /\ CanCall /\ Len(heap) < MaxNodes /\ CanSet(n, k) /\ SOriginOk(s, o)
+  /\ heap' = Append([heap EXCEPT ![n].p = SetOp(@, k, Len(heap) + 1)], SNode(s, o))
   /\ cache' = Forget(n) /\ Called
 
-SetNewC(n, k, kind) ==
+SetNewC(n, k, kind, o) ==
   /\ CanCall /\ Len(heap) < MaxNodes /\ CanSet(n, k)
-  /\ heap' = Append([heap EXCEPT ![n].p = SetOp(@, k, Len(heap) + 1)], CNode(kind, <<>>))
+  /\ heap' = Append([heap EXCEPT ![n].p = SetOp(@, k, Len(heap) + 1)], CNode(kind, <<>>, o))
   /\ cache' = Forget(n) /\ Called
 
 \* m is not n and not above n: values are finite trees
@@ -138,16 +159,37 @@ Assign(n, s) ==
 CanRedecode(n) ==
   /\ n \in Ids /\ IsC(heap, n) /\ TreeShaped(heap, n) /\ Private(heap, n)
   /\ StrictKeyed \/ ~HasStrict(ValOf(heap, n))
-Redecode(n) ==
-  /\ CanCall /\ CanRedecode(n)
+\* into: "discovery" - UnmarshalBinary on what Discovery returned for the first byte (the library made every
+\* object); "zero" - UnmarshalBinary on a zero value of n's type the caller declared (the library made the rest)
+Intos == {"discovery", "zero"}
+DecodedHeap(h, n, into) ==
+  [i \in 1..Len(h) |-> IF i \notin Below(h, n) THEN h[i]
+                       ELSE [h[i] EXCEPT !.o = IF i = n /\ into = "zero" THEN "dzero" ELSE "lib"]]
+Redecode(n, into) ==
+  /\ CanCall /\ CanRedecode(n) /\ into \in Intos
   /\ cache' = [i \in 1..MaxNodes |-> IF i \in Below(heap, n) THEN <<>> ELSE cache[i]]
-  /\ UNCHANGED heap /\ Called
+  /\ heap' = DecodedHeap(heap, n, into) /\ Called
 
 \* ---------------------------------------------------------- observations
+\* deviation "marker-by-constructor": what is written for node n when the marker is a field of the object
+MarkerOf(kind) == CASE kind = "obj" -> 3 [] kind = "ecma" -> 8 [] kind = "strict" -> 10
+RECURSIVE EncByOrigin(_, _), EncPairsByOrigin(_, _, _)
+EncPairsByOrigin(h, p, named) ==
+  IF p = <<>> THEN <<>>
+  ELSE (IF named THEN Utf8(Head(p)[1]) ELSE <<>>) \o EncByOrigin(h, Head(p)[2]) \o EncPairsByOrigin(h, Tail(p), named)
+EncByOrigin(h, n) ==
+  IF h[n].t = "scalar" THEN Enc(h[n].s)
+  ELSE LET m == IF h[n].o \in Unconstructed THEN 0 ELSE MarkerOf(h[n].t)
+       IN CASE h[n].t = "obj"    -> <<U8(m)>> \o EncPairsByOrigin(h, h[n].p, TRUE) \o ObjEnd
+            [] h[n].t = "ecma"   -> <<U8(m), U32F(0, 0)>> \o EncPairsByOrigin(h, h[n].p, TRUE) \o ObjEnd
+            [] h[n].t = "strict" -> <<U8(m), U32(Len(h[n].p))>> \o EncPairsByOrigin(h, h[n].p, StrictKeyed)
+
 MarshalOf(n) ==
   /\ lpc = "obs" /\ n \in Ids
   /\ LET v == ValOf(heap, n)
-         b == IF Caching /\ IsC(heap, n) /\ cache[n] # <<>> THEN cache[n] ELSE Bytes(Written(v))
+         b == IF Caching /\ IsC(heap, n) /\ cache[n] # <<>> THEN cache[n]
+              ELSE IF Dev = "marker-by-constructor" THEN Bytes(EncByOrigin(heap, n))
+              ELSE Bytes(Written(v))
      IN /\ out' = [n |-> n, b |-> b, sz |-> Size(v)]
         /\ cache' = IF Caching /\ IsC(heap, n) THEN [cache EXCEPT ![n] = b] ELSE cache
   /\ lpc' = "call" /\ UNCHANGED <<heap, nsteps>>
@@ -159,15 +201,18 @@ Frozen == pc = "live" /\ stack = <<>> /\ ncalls = 0 /\ val = None /\ Clean
 LiveInit ==
   /\ Frozen /\ out = NoOut /\ cache = NoCache /\ nsteps = 0
   /\ \/ heap = <<>> /\ lpc = "call"
+     \* a start tree built with the constructors, or with one container of another origin
      \/ \E v \in LoadVals : heap = HeapOf(v, 0) /\ lpc = "obs"
+     \/ \E v \in LoadVals : \E z \in 1..Len(HeapOf(v, 0)), o \in COrigins \ {"new"} :
+          /\ IsC(HeapOf(v, 0), z) /\ heap = [HeapOf(v, 0) EXCEPT ![z].o = o] /\ lpc = "obs"
 
 LiveCall ==
-  \/ \E kind \in Kinds : NewC(kind)
-  \/ \E n \in Ids, k \in Keys : \/ \E s \in Scalars : SetNew(n, k, s)
-                                \/ \E kind \in Kinds : SetNewC(n, k, kind)
+  \/ \E kind \in Kinds, o \in COrigins : NewC(kind, o)
+  \/ \E n \in Ids, k \in Keys : \/ \E s \in Scalars, o \in SOrigins : SetNew(n, k, s, o)
+                                \/ \E kind \in Kinds, o \in COrigins : SetNewC(n, k, kind, o)
                                 \/ \E m \in Ids : SetNode(n, k, m)
   \/ \E n \in Ids, s \in Scalars : Assign(n, s)
-  \/ \E n \in Ids : Redecode(n)
+  \/ \E n \in Ids, into \in Intos : Redecode(n, into)
 LiveObs  == NoObs \/ \E n \in Ids : MarshalOf(n)
 LiveNext == (LiveCall \/ LiveObs) /\ UNCHANGED vars
 LiveSpec == LiveInit /\ [][LiveNext]_<<vars, lvars>>
@@ -186,4 +231,5 @@ HeapOk ==
     /\ \A i, j \in 1..Len(heap[n].p) : i < j => heap[n].p[i][1] # heap[n].p[j][1]
     /\ \A i \in 1..Len(heap[n].p) : heap[n].p[i][2] \in Ids /\ heap[n].p[i][2] # n
     /\ (heap[n].t = "strict" /\ ~StrictKeyed) => \A i \in 1..Len(heap[n].p) : heap[n].p[i][1] = IdxKey(i)
+    /\ heap[n].t = "scalar" => SOriginOk(heap[n].s, heap[n].o) \/ heap[n].o = "lib"
 =============================================================================
